@@ -472,9 +472,7 @@ impl DefGen {
             };
             // a keyword-form sequence is ended by the tag that follows it: its elements must not begin with an identifier
             let block = block || matches!(&item, TItem::Seq(t) if starts_with_enum(t));
-            // CANDIDATE-FINDING C18-F2: the A2ML parser rejects a repeated tagged member without content, ("TAG")*; or
-            // (block "TAG")*; although the A2ML grammar admits it (taggedstruct_definition ::= tag [member]). Not generated.
-            let repeat = repeat && !matches!(item, TItem::Nothing);
+            // C18-F2 (repeated tagged member without content, ("TAG")*; / (block "TAG")*;): repaired in /repo 4b79d74: generated and checked again
             v.push(Tagged { tag, block, repeat, item });
         }
         v
@@ -1013,17 +1011,18 @@ fn render_instance(rng: &mut Rng, inst: &Instance) -> String {
     let comments = rng.chance(30);
     for t in &inst.toks {
         s.push(if rng.chance(15) { '\n' } else { ' ' });
-        // CANDIDATE-FINDING C18-F5: in IF_DATA that is kept uninterpreted a comment between "/end TAG" and the next "/begin"
-        // makes the whole load fail (InvalidBegin), in both modes. Deviating blocks get no comment in front of /begin.
-        let carve = !inst.conforming && t.text == "/begin";
-        if comments && !carve && rng.chance(15) {
-            // comments are not part of the data. CANDIDATE-FINDING C18-F4: a comment directly in front of "/end IF_DATA"
-            // makes the library flag a conforming block invalid; that position is left out
+        // C18-F5 (uninterpreted IF_DATA, comment between "/end TAG" and the next "/begin"): repaired in /repo 182b4fe: generated and checked again
+        if comments && rng.chance(15) {
+            // comments are not part of the data
             s.push_str(if rng.chance(50) { "/* a comment */ " } else { "// a comment\n" });
         }
         s.push_str(&t.text);
     }
     s.push_str(if rng.chance(50) { "\n" } else { " " });
+    // C18-F4 (comment directly in front of "/end IF_DATA"): repaired in /repo 7aa9d8e: generated and checked again
+    if comments && rng.chance(15) {
+        s.push_str(if rng.chance(50) { "/* a comment */ " } else { "// a comment\n" });
+    }
     s.push_str("/end IF_DATA");
     s
 }
